@@ -265,6 +265,7 @@ def r08_s(ctx):
     ctx.include(c02.r02_12, 'R08.S')
     ctx.include(c07.r07_9, 'R08.S')
     ctx.include(c07.r07_10, 'R08.S')
+    ctx.include(c07.r07_8, 'R08.S')   # exact fast paths only inside their exponent ranges: what the writer printed reads back bit for bit
 
 
 RULES = [("R08.1", r08_1), ("R08.2", r08_2), ("R08.3", r08_3), ("R08.4", r08_4), ("R08.5", r08_5), ("R08.W", r08_w), ("R08.S", r08_s)]
